@@ -2,7 +2,7 @@
 
 use serde::{Deserialize, Serialize};
 use std::cell::RefCell;
-use std::collections::{BTreeMap, BTreeSet};
+use std::collections::BTreeMap;
 use std::panic::{self, AssertUnwindSafe};
 
 #[derive(Clone, Debug, Serialize, Deserialize, PartialEq, Eq)]
@@ -31,6 +31,38 @@ impl Violation {
     }
 }
 
+/// A set of 64-bit signatures kept as a vector that is sorted and deduplicated lazily
+/// (8 bytes per distinct element; only its size is ever reported).
+#[derive(Clone, Debug, Default, Serialize, Deserialize)]
+pub struct SigSet {
+    v: Vec<u64>,
+    #[serde(skip)]
+    compacted: usize,
+}
+
+impl SigSet {
+    pub fn insert(&mut self, x: u64) {
+        self.v.push(x);
+        if self.v.len() > 2 * self.compacted + 4096 { self.compact(); }
+    }
+
+    fn compact(&mut self) {
+        self.v.sort_unstable();
+        self.v.dedup();
+        self.compacted = self.v.len();
+    }
+
+    pub fn absorb(&mut self, other: &SigSet) {
+        self.v.extend_from_slice(&other.v);
+        if self.v.len() > 2 * self.compacted + 4096 { self.compact(); }
+    }
+
+    pub fn distinct(&mut self) -> usize {
+        self.compact();
+        self.v.len()
+    }
+}
+
 #[derive(Clone, Debug, Default, Serialize, Deserialize)]
 pub struct Stats {
     /// Executions of the system under test (a scenario that enumerates fault points runs many).
@@ -38,7 +70,7 @@ pub struct Stats {
     /// Simulated steps: I/O or synchronisation calls served by the simulator.
     pub steps: u64,
     /// I/O signatures of executions in which at least one awkward behaviour or fault actually fired.
-    pub sigs: BTreeSet<u64>,
+    pub sigs: SigSet,
     /// How often each fault kind actually fired.
     pub faults: BTreeMap<String, u64>,
     /// Rare conditions reached.
@@ -61,7 +93,7 @@ impl Stats {
     pub fn merge(&mut self, other: &Stats) {
         self.evaluations += other.evaluations;
         self.steps += other.steps;
-        for s in other.sigs.iter() { self.sigs.insert(*s); }
+        self.sigs.absorb(&other.sigs);
         for (k, v) in other.faults.iter() { *self.faults.entry(k.clone()).or_insert(0) += v; }
         for (k, v) in other.probes.iter() { *self.probes.entry(k.clone()).or_insert(0) += v; }
     }
